@@ -27,6 +27,22 @@ fn main() {
         usage();
     }
     let prop = args[1].clone();
+    if prop == "dev-forced" {
+        let n: u64 = args.get(2).and_then(|x| x.parse().ok()).unwrap_or(1_000_000);
+        let mut x: u64 = 99;
+        let t0 = std::time::Instant::now();
+        let mut hits = 0;
+        for _ in 0..n {
+            if let Some((s, ms)) = props::searchsem::forced_return_candidate(&mut x) {
+                hits += 1;
+                if hits <= 6 {
+                    println!("{} moves {}", s.fen(), ms.iter().map(oracle::mv_name).collect::<Vec<_>>().join(" "));
+                }
+            }
+        }
+        eprintln!("tries {} hits {} in {:?}", n, hits, t0.elapsed());
+        return;
+    }
     if prop == "dev-zz3" {
         // development aid: prints roots for harness/src/zz_corpus.txt; usage: wverif dev-zz3 <tries> <seed>
         let n: u64 = args.get(2).and_then(|x| x.parse().ok()).unwrap_or(1_000_000);
